@@ -13,6 +13,7 @@ package schedule
 // ---------------------------------------------------------------- const
 
 //@ func NewConst
+//@ props C02 C04
 //@ modifies nothing
 //@ requires duration >= 1000000
 //@ at call constDoAt assert [rate] arg(ops) == max(ops0, 0.0)
@@ -20,6 +21,7 @@ package schedule
 //@ at call NewDoAtSchedule assert [count] arg(n) == floor(Iconst(max(ops0, 0.0), secs(duration0)))
 
 //@ func constDoAt#lit0
+//@ props C02 C04
 //@ captures billionDivOps == 1000000000.0/ops
 //@ requires ops > 0.0 && i >= 0
 //@ ensures [not-late] real(result) <= real(i)*1000000000.0/ops
@@ -27,12 +29,14 @@ package schedule
 //@ ensures [not-before-start] result >= 0
 
 //@ func constDoAt
+//@ props C02 C04
 //@ modifies nothing
 //@ requires ops >= 0.0
 
 // ---------------------------------------------------------------- line
 
 //@ func NewLine
+//@ props C02 C04
 //@ modifies nothing
 //@ requires from >= 0.0 && to >= 0.0 && duration >= 1000000
 //@ at call NewConst assert [flat] arg(ops) == from0 && arg(duration) == duration0
@@ -41,10 +45,12 @@ package schedule
 //@ at call NewDoAtSchedule assert [count] arg(n) == floor(Iline(from0, to0, secs(duration0), secs(duration0)))
 
 //@ func lineDoAt
+//@ props C02 C04
 //@ modifies nothing
 //@ requires a != 0.0
 
 //@ func lineDoAt#lit0
+//@ props C02 C04
 //@ captures twoA == 2.0*a && bSquare == b*b && bilionDivA == 1000000000.0/a
 //@ requires a != 0.0 && b >= 0.0 && i >= 0 && 2.0*a*real(i) + b*b >= 0.0
 //@ let x = real(result)/1000000000.0
@@ -56,17 +62,19 @@ package schedule
 // ---------------------------------------------------------------- once
 
 //@ func NewOnce
+//@ props C02 C04
 //@ modifies nothing
 //@ at call NewDoAtSchedule assert [all-at-start] arg(duration) == 0 && arg(n) == n0
 
 //@ func NewOnce#lit0
+//@ props C02 C04
 //@ ensures [at-start] result == 0
 
 // ---------------------------------------------------------------- doAt schedule
 
 //@ func NewDoAtSchedule
 //@ modifies nothing
-//@ props C01 C02
+//@ props C01 C02 C04
 //@ ensures typeis(result, *doAtSchedule) && fresh(result.(*doAtSchedule))
 //@ ensures result.(*doAtSchedule).duration == duration && result.(*doAtSchedule).n == n
 //@ ensures result.(*doAtSchedule).doAt == doAt && result.(*doAtSchedule).i == 0
@@ -91,7 +99,7 @@ package schedule
 //@ guarded_by doAtSchedule.start StartSync.startOnce
 
 //@ func (s *doAtSchedule) Next
-//@ props C01 C02
+//@ props C01 C02 C04 C03
 //@ requires s.started == once(s.startOnce)
 //@ ensures [consumes-one-index] s.i == old(s.i) + 1
 //@ ensures [token] imp(old(s.i) < s.n, ok && tx == s.start + apply(s.doAt, old(s.i)))
@@ -101,7 +109,7 @@ package schedule
 //@ modifies s.i, s.start, s.started, s.startOnce
 
 //@ func (s *doAtSchedule) Start
-//@ props C01 C02
+//@ props C01 C02 C04 C03
 //@ requires s.started == once(s.startOnce)
 //@ may_panic s.started
 //@ ensures s.start == startAt && s.started && once(s.startOnce)
@@ -109,13 +117,13 @@ package schedule
 
 //@ func (s *doAtSchedule) Left
 //@ modifies nothing
-//@ props C01 C02
+//@ props C01 C02 C04 C03
 //@ ensures [exact] result == max(0, s.n - s.i)
 
 // ---------------------------------------------------------------- step = one const level per rate, in order
 
 //@ func NewStep
-//@ props C01
+//@ props C01 C02 C04
 //@ requires from >= 0.0 && to >= 0.0 && step >= 1 && duration >= 1000000
 //@ loop 0 invariant [level-rates] i == from + real(len(nexts))*real(step) && from == from0 && to == to0 && step == step0 && duration == duration0
 //@ loop 0 invariant [levels-so-far-fit] imp(len(nexts) > 0, from + real(len(nexts)-1)*real(step) <= to)
@@ -127,7 +135,7 @@ package schedule
 // ---------------------------------------------------------------- instance_step = once(from), then (pause, once(step)) per step
 
 //@ func NewInstanceStep
-//@ props C12 C02
+//@ props C12 C02 C04 C03
 //@ requires from >= 0 && to >= 0 && step >= 1 && stepDuration >= 1000000
 //@ loop 0 invariant from == from0 && to == to0 && step == step0 && stepDuration == stepDuration0
 //@ loop 0 invariant [parts] len(nexts) >= 1 && (len(nexts)-1) % 2 == 0 && i == from + step + ((len(nexts)-1)/2)*step
@@ -153,7 +161,7 @@ package schedule
 //@ guarded_by compositeSchedule.leftAfter rwMu
 
 //@ func NewComposite
-//@ props C02 C12
+//@ props C02 C12 C04 C03
 //@ requires forall(a, 0, len(scheds), forall(b, 0, len(scheds), imp(a != b, scheds[a] != scheds[b])))
 //@ requires forall(k, 0, len(scheds), scheds[k] != nil && !startedOf[scheds[k]])
 //@ ghost n = len(scheds)
@@ -171,7 +179,7 @@ package schedule
 //@ ensures [unknown-only-if-a-later-part-is-unknown] imp(n >= 2, forall(k, 0, n-1, imp(result.(*compositeSchedule).leftAfter[k] < 0, leftOf[scheds[k+1]] < 0 || result.(*compositeSchedule).leftAfter[k+1] < 0)))
 
 //@ func (s *compositeSchedule) startNext
-//@ props C02 C12
+//@ props C02 C12 C04 C03
 //@ requires wfComposite(s) && len(s.scheds) >= 2
 //@ requires [called-with-the-write-lock-held] held(s.rwMu) == 2
 //@ ensures [shifted] len(s.scheds) == old(len(s.scheds)) - 1 && forall(k, 0, len(s.scheds), s.scheds[k] == old(s.scheds)[k+1] && s.leftAfter[k] == old(s.leftAfter)[k+1])
@@ -187,7 +195,7 @@ package schedule
 //@ spec func quiet() bool
 
 //@ func (s *compositeSchedule) Left
-//@ props C02 C12
+//@ props C02 C12 C04 C03
 //@ requires wfComposite(s) && held(s.rwMu) == 0
 //@ at call s.rwMu.Lock havoc s.scheds, s.leftAfter
 //@ at call s.rwMu.Lock assume [monitor-invariant] wfComposite(s) && shrunkFromFront(s, old(s.scheds), old(s.leftAfter)) && imp(quiet(), len(s.scheds) == old(len(s.scheds)))
@@ -196,7 +204,7 @@ package schedule
 //@ ensures [parts-only-dropped-from-the-front] len(s.scheds) <= old(len(s.scheds))
 
 //@ func (s *compositeSchedule) Next
-//@ props C02 C12
+//@ props C02 C12 C04 C03
 //@ requires wfComposite(s) && held(s.rwMu) == 0
 //@ at call s.rwMu.Lock havoc s.scheds, s.leftAfter
 //@ at call s.rwMu.Lock assume [monitor-invariant] wfComposite(s) && shrunkFromFront(s, old(s.scheds), old(s.leftAfter)) && imp(quiet(), len(s.scheds) == old(len(s.scheds)))
@@ -208,7 +216,7 @@ package schedule
 //@ at call s.startNext assert [next-part-starts-at-the-finish-of-the-previous] arg(currentFinishTime) == result_of(s.scheds[0].Next, 0) && !result_of(s.scheds[0].Next, 1)
 
 //@ func (s *compositeSchedule) Start
-//@ props C02 C12
+//@ props C02 C12 C04 C03
 //@ requires wfComposite(s) && held(s.rwMu) == 0
 //@ may_panic startedOf[s.scheds[0]]
 //@ ensures wfComposite(s) && held(s.rwMu) == 0 && startedOf[s.scheds[0]]
@@ -217,19 +225,19 @@ package schedule
 // ---------------------------------------------------------------- unlimited (time-bounded, token count unknown)
 
 //@ func NewUnlimited
-//@ props C02
+//@ props C02 C04 C03
 //@ ensures typeis(result, *unlimitedSchedule) && fresh(result.(*unlimitedSchedule)) && result.(*unlimitedSchedule).duration == duration
 //@ ensures !result.(*unlimitedSchedule).started && !once(result.(*unlimitedSchedule).startOnce) && result.(*unlimitedSchedule).finish != nil
 
 //@ func (s *unlimitedSchedule) Start
-//@ props C02
+//@ props C02 C04 C03
 //@ requires s.started == once(s.startOnce) && s.finish != nil
 //@ may_panic s.started
 //@ ensures [finish-is-start-plus-duration] *s.finish == startAt + s.duration && s.started && once(s.startOnce)
 //@ modifies s.started, s.startOnce, *s.finish
 
 //@ func (s *unlimitedSchedule) Next
-//@ props C02
+//@ props C02 C04 C03
 //@ requires s.started == once(s.startOnce) && s.finish != nil
 //@ ensures [finish-time-is-fixed-once-started] imp(old(once(s.startOnce)), *s.finish == old(*s.finish))
 //@ ensures [token-only-before-the-finish-time] imp(ok, tx < *s.finish && tx <= now && tx >= old(now))
@@ -238,7 +246,7 @@ package schedule
 //@ modifies s.started, s.startOnce, *s.finish
 
 //@ func (s *unlimitedSchedule) Left
-//@ props C02
+//@ props C02 C04 C03
 //@ requires s.finish != nil
 //@ ensures [unknown-or-finished] result == -1 || result == 0
 //@ ensures [zero-only-after-the-finish-time] imp(result == 0, s.started && now >= *s.finish)
